@@ -58,6 +58,20 @@ Definition kind_const (k : nat) : str :=
 Definition is_manifest_kind (k : nat) : bool :=
   existsb (str_eqb (kind_const k)) IsManifest_cases.
 
+(* Order of effects, read off the call sequences that the translator extracts from the Go
+   functions (c09_calls_gc / c09_calls_delete in Generated/GC09.v): does a call to [a] come
+   before the first call to [c]? *)
+Fixpoint seen_before (a c : str) (l : list str) (seen : bool) : bool :=
+  match l with
+  | [] => false
+  | x :: r => if str_eqb x c then seen else seen_before a c r (seen || str_eqb x a)
+  end.
+(* GC: index.json is written before the first blob is removed; the context is tested before
+   a blob is removed; delete(): index.json is written before the blob is unlinked *)
+Definition gc_saves_before_sweep : bool := seen_before (b "s.saveIndex") (b "os.Remove") c09_calls_gc false.
+Definition gc_tests_ctx_before_remove : bool := seen_before (b "isContextDone") (b "os.Remove") c09_calls_gc false.
+Definition delete_saves_before_unlink : bool := seen_before (b "s.saveIndex") (b "s.storage.Delete") c09_calls_delete false.
+
 (* RStale t: the pre-repair resolver.Memory.Tag left reference t in the tag set of the
    descriptor it was moved away from; (RStale t, n) records "t is still in tags[n]".
    Never created by the repaired code (cfg_fixed). *)
@@ -504,7 +518,8 @@ Definition pstep (c : cfg) (kl : bool) (p : pstate) (o : pop) : pstate * res :=
   | PO (ODelete n) =>
     (* delete() saves when it removed or added a reference *)
     let '(m, r) := delete c ord_id (mem p) n in
-    (saved (autosave p && negb (entries_eqb (idx m) (idx (mem p)))) p m, r)
+    (saved (autosave p && negb (entries_eqb (idx m) (idx (mem p))) &&
+            (delete_saves_before_unlink || is_ok r)) p m, r)
   | PO OGC =>
     let '(m, r) := gc c kl (fun _ => candidates (idx (mem p))) (mem p) in
     (saved (autosave p && is_ok r) p m, r)
@@ -520,7 +535,10 @@ Definition pstep (c : cfg) (kl : bool) (p : pstate) (o : pop) : pstate * res :=
   | PGCCancel true _ _ => (p, ECanceled)
   | PGCCancel false order k =>
     let '(m, r) := gc_cancel c kl (fun _ => candidates (idx (mem p))) order k (mem p) in
-    (saved (autosave p && match r with ECanceled => true | _ => false end) p m, r)
+    (* a sweep that can be interrupted only exists if the context is tested in it; the index
+       written before the sweep is on disk when it is interrupted *)
+    (saved (autosave p && gc_saves_before_sweep && gc_tests_ctx_before_remove &&
+            match r with ECanceled => true | _ => false end) p m, r)
   end.
 
 End Model.
